@@ -157,6 +157,16 @@ pub fn check_cli(dict: &[WR], tag: &str) -> Option<(String, String)> {
             if rc == 0 || std::path::Path::new(&mbad).exists() {
                 return Err(("cli-bad-record-accepted".into(), format!("a record with one weight too many was accepted (exit {rc}, output written: {})", std::path::Path::new(&mbad).exists())));
             }
+            // ... also when no output model is requested, alone and next to a dump
+            let (rc, _) = run_tool(&["--model-in", &min, "--replace-dict", &bad]).unwrap_or_else(|e| machinery_error(&e));
+            if rc == 0 {
+                return Err(("cli-bad-record-accepted".into(), "a record with one weight too many was accepted when --model-out was not given (exit 0)".into()));
+            }
+            let csv4 = format!("{dir}/dict4.csv");
+            let (rc, _) = run_tool(&["--model-in", &min, "--dump-dict", &csv4, "--replace-dict", &bad]).unwrap_or_else(|e| machinery_error(&e));
+            if rc == 0 {
+                return Err(("cli-bad-record-accepted".into(), "a record with one weight too many was accepted next to --dump-dict without --model-out (exit 0)".into()));
+            }
         }
         Ok(())
     })();
